@@ -44,7 +44,34 @@ fn gen(ctx: &GenCtx, i: u64) -> Option<Run> {
     let pool: Vec<String> = (0..1 + r.usize(5)).map(|_| gen_key(&mut r)).collect();
     let mut footer = None;
     let mut assertion = None;
+    // a stream of its own for the payload previews, so that every other choice stays as it was
+    let mut r2 = run_rng(ctx, "C14-preview", i);
     for _ in 0..n {
+        if r2.chance(1, 5) {
+            rb.push(Op::BuilderOp { b, op: BOp::PeekPayload });
+        }
+        if r2.chance(1, 5) {
+            // keys related to a live key as text (dotted children, extensions, prefixes): setting or removing
+            // one must not touch the other
+            let base = r2.pick(&pool).clone();
+            let rel = match r2.below(6) {
+                0 => format!("{}.", base),
+                1 => format!("{}.id", base),
+                2 => format!("{}x", base),
+                3 => format!("{}/0", base),
+                4 => format!(".{}", base),
+                _ => {
+                    let n = base.chars().count();
+                    let p: String = base.chars().take(std::cmp::max(1, n / 2)).collect();
+                    p
+                }
+            };
+            if r2.chance(1, 2) {
+                rb.push(Op::BuilderOp { b, op: BOp::SetClaim(ClaimSpec::Custom { key: rel, value: serde_json::json!(r2.below(1000)) }) });
+            } else {
+                rb.push(Op::BuilderOp { b, op: BOp::RemoveClaim(if r2.chance(1, 2) { rel } else { base }) });
+            }
+        }
         match r.below(12) {
             0 | 1 => {
                 let k = if r.chance(3, 4) { r.pick(&pool).clone() } else { r.pick(&["iss", "sub", "aud", "jti", "exp", "nbf", "iat", "nope"]).to_string() };
@@ -128,6 +155,9 @@ fn gen(ctx: &GenCtx, i: u64) -> Option<Run> {
         for k in (0..many).step_by(7) {
             rb.push(Op::BuilderOp { b, op: BOp::RemoveClaim(format!("k{:03}", k)) });
         }
+    }
+    if r2.chance(1, 3) {
+        rb.push(Op::BuilderOp { b, op: BOp::PeekPayload });
     }
     let out = rb.msg();
     rb.push(Op::Build { b, key, out, entropy_seed: r.next(), entropy_fail: vec![], observe: false, now_ns: Ns(SENTINEL_NOW) });
